@@ -243,7 +243,7 @@ class CentralizedTaskingEngine(TaskingEngine):
     def _attachObsMetadata(self, observation: Observation) -> Observation:
         """Attach measurement metadata to `observation` since it's not stored with the :class:`.Observation`."""
         sensor_agent = ray.get(self._sensor_store[observation.sensor_id])
-        observation.measurement = sensor_agent.measurement
+        observation.measurement = sensor_agent.sensors.measurement
         return observation
 
     def getCurrentTasking(self, julian_date: JulianDate) -> Task:
